@@ -1052,6 +1052,9 @@ where
                         runtime_types.insert(Some(atom!("Object")));
                     }
                 });
+                if members.is_empty() {
+                    runtime_types.insert(Some(atom!("Object")));
+                }
             }
             TsType::TsFnOrConstructorType(..) => {
                 runtime_types.insert(Some(atom!("Function")));
@@ -1092,6 +1095,9 @@ where
                             runtime_types.insert(Some(atom!("Object")));
                         }
                     });
+                    if body.is_empty() {
+                        runtime_types.insert(Some(atom!("Object")));
+                    }
                 } else {
                     match &*ident.sym {
                         "Array" | "Function" | "Object" | "Set" | "Map" | "WeakSet" | "WeakMap"
